@@ -126,7 +126,13 @@ fn main() {
         let mut hist: Vec<Value> = vec![];
         let mut seq = r.below(65536);
         for _ in 0..len {
-            let ev = event(&mut r, &w, &mut seq);
+            let mut ev = event(&mut r, &w, &mut seq);
+            // one frame in twelve comes from another domain, sdoId or PTP version (decided from the event's own text, so the random
+            // stream of the alphabet above is the same with and without it): the rejecting paths take the state lock too
+            if ev.get("src").is_some() {
+                let h = splitmix(ev.to_string().bytes().fold(0xcbf29ce484222325u64, |a, b| (a ^ b as u64).wrapping_mul(0x100000001b3)));
+                match h % 48 { 0 => { ev["dom"] = json!(3); } 1 => { ev["sdo"] = json!(256); } 2 => { ev["sdo"] = json!(1); } 3 => { ev["ver"] = json!(1); } _ => {} }
+            }
             *kinds.entry(ev["e"].as_str().unwrap().to_string()).or_default() += 1;
             hist.push(ev.clone());
             calls += 1;
